@@ -1066,6 +1066,9 @@ fn sym_packet(r: &Rng, sym: usize, cc_prev: &mut Option<u8>) -> Vec<u8> {
         let mut p = mk_af_only(r, 0x101, cc);
         if pusi { p[1] |= 0x40; }
         if kind == 1 { p[4] = r.byte(); }
+        // the reserved adaptation_field_control value 00 (neither field nor payload): a packet like any
+        // other for the continuity check — the counter is compared and recorded (seeded change C09-r12m2)
+        if kind == 2 { p[3] &= 0xcf; }
         p
     };
     if kind == 2 && has_payload && r.chance(1, 3) { p[4] = 200; p[3] |= 0x20; }
